@@ -850,14 +850,29 @@ func TestVerifC35(t *testing.T) {
 			runRRCase(t, r, i)
 		}
 	}
+	n = r.N(6000, 60000)
+	for i := 0; i < n; i++ {
+		if r.Want("wagg", i) {
+			runWAggCase(r, i)
+		}
+	}
+	n = r.N(1200, 12000)
+	for i := 0; i < n; i++ {
+		if r.Want("wt", i) {
+			runWTCase(t, r, i)
+		}
+	}
+	runParallelPicks(r, r.N(48, 480), 12, 40000)
 	<-wrapDone
 	r.Finish(vlib.Spec{
 		Level: "exploration",
-		Rule:  "eval: random RecordTransition sequences over 0-12 slots (incl. add/remove via SHUTDOWN and same-state transitions), result compared with the precedence rule over the multiset after every call. shard: PRNG histories over the real endpointsharding balancer with lbfake stub children in a synctest bubble (updates with 0-7 endpoints drawn from 9, duplicates, reordered addresses; child reports incl. inline during UpdateClientConnState/ResolverError/ExitIdle and from removed children); at quiescence after every event: aggregate == precedence(last child states), ChildStatesFromPicker agrees, 3n+2 picks go only to the latest pickers of children in the aggregate state and every window obeys floor/ceil. rr: the real round_robin with real pick_first children over lbfake subchannels (1-6 single-address endpoints, health listener), same checks with a per-endpoint A62 reference. wrap (thorough): 2^32+2n picks for n in {3,5,6,7}. Non-trivial = >=2 children, >=2 aggregate changes and >=1 fairness check with n>=2; distinct = bucketed signatures per family",
+		Rule:  "eval: random RecordTransition sequences over 0-12 slots (incl. add/remove via SHUTDOWN and same-state transitions), result compared with the precedence rule over the multiset after every call. shard: PRNG histories over the real endpointsharding balancer with lbfake stub children in a synctest bubble (updates with 0-7 endpoints drawn from 9, duplicates, reordered addresses; child reports incl. inline during UpdateClientConnState/ResolverError/ExitIdle and from removed children); at quiescence after every event: aggregate == precedence(last child states), ChildStatesFromPicker agrees, 3n+2 picks go only to the latest pickers of children in the aggregate state and every window obeys floor/ceil. rr: the real round_robin with real pick_first children over lbfake subchannels (1-6 single-address endpoints, health listener), same checks with a per-endpoint A62 reference. wrap (thorough): 2^32+2n picks for n in {3,5,6,7}. wagg / wt: the real weightedaggregator driven directly (Add/Remove/UpdateWeight/UpdateState/Pause/Resume) and the real weighted_target policy with stub children (config updates adding/removing targets or changing their child policy, reports from current and removed children, ResolverError, ExitIdle); after every step the published aggregate must equal precedence over the states the children are COUNTED under per the documented sticky-TF rule (every third case starts by removing a child that is in the sticky condition). par: 12 goroutines released by a barrier x 40000 picks on one fresh picker with n in {2,3,5,7} READY children plus 0-3 non-READY ones, exact floor/ceil on the totals. Non-trivial = >=2 children, >=2 aggregate changes and >=1 fairness check with n>=2; distinct = bucketed signatures per family",
 		Assumptions: []string{
 			"stub children always publish an initial state from their first UpdateClientConnState, as real child policies do (DESIGN.md §4 C35)",
 			"quick tier: no pick window spans the uint32 wrap of the picker's counter (2^32 picks away)",
 			"rr family: endpoints have one address each, so the per-endpoint pick_first reference is the A62 single-subchannel machine",
+			"weighted_target counts a child as documented in weightedaggregator (CONNECTING until its first report; a CONNECTING report right after a TRANSIENT_FAILURE report does not change what it counts as)",
+			"par family needs goroutines that really run in parallel (GOMAXPROCS is raised to >=4; on a single-core runner it cannot expose non-atomic rotation)",
 		},
 		Floor: 30,
 	})
